@@ -93,6 +93,39 @@ static void sweep_apply(int ev) {
 }
 static e1_cfg sweep_cfg = { .nev = 65539, .ev_name = sweep_name, .apply = sweep_apply, .root_setup = root_setup, .model = &M, .model_size = sizeof M };
 
+/* ------------------------------------------------------------- address-neighbour stage (part of mode "sweep")
+ * The mapper's identity is a 48-bit address: for 3 base addresses X and every Y = X with one bit flipped (48), plus
+ * twins (first two octets changed), both services, direct: Discover(X) accepted; Discover(Y) refused; Discover(X)
+ * accepted again; Reset; Discover(Y) accepted.  pseudo path: [base * 2 + tos, neighbour index (0..47 bit, 48.. twins)] */
+static int an_stage[2], an_n; static uint64_t an_cases;
+static void an_case(int bt, int nb) {
+    static const uint8_t base[3][6] = {{0x00, 0x15, 0x5d, 0xaa, 0xbb, 0x01}, {0x00, 0x50, 0xf2, 0xaa, 0xbb, 0x01}, {0xfe, 0xff, 0xff, 0xff, 0xff, 0xfe}};
+    uint8_t keep1[6], keep2[6]; memcpy(keep1, vf_station[ST_M1], 6); memcpy(keep2, vf_station[ST_M2], 6);
+    uint8_t X[6], Y[6]; memcpy(X, base[bt / 2], 6); memcpy(Y, X, 6);
+    if (nb < 48) Y[nb / 8] ^= (uint8_t)(1u << (nb % 8)); else { Y[0] ^= (uint8_t)(0x02 << (nb - 48)); Y[1] ^= 0x40; }
+    memcpy(vf_station[ST_M1], X, 6); memcpy(vf_station[ST_M2], Y, 6);
+    uint8_t tos = (uint8_t)(bt & 1);
+    vf_world_reset(); root_setup();
+    pev seq[5] = { ev_discover(tos, ST_M1, ST_M1, 0x1111, 1), ev_discover(tos, ST_M2, ST_M2, 0x2222, 1), ev_discover(tos, ST_M1, ST_M1, 0x1111, 2), ev_reset(tos, ST_M1), ev_discover(tos, ST_M2, ST_M2, 0x2222, 3) };
+    for (int i = 0; i < 5; i++) {
+        vf_trace_clear();
+        int expect = arbiter_step(&seq[i]);
+        drv_linux(&seq[i], 0);
+        if (A.verbose) { char nm[160]; pev_name(&seq[i], nm, sizeof nm); printf("    M1=%02x:%02x:%02x:%02x:%02x:%02x M2=%02x:%02x:%02x:%02x:%02x:%02x  %s -> %d frame(s)\n", X[0], X[1], X[2], X[3], X[4], X[5], Y[0], Y[1], Y[2], Y[3], Y[4], Y[5], nm, count_sends()); }
+        oracle(&seq[i], expect);
+    }
+    an_cases++;
+    memcpy(vf_station[ST_M1], keep1, 6); memcpy(vf_station[ST_M2], keep2, 6);
+}
+static void an_name(int ev, char *b, size_t cap) { snprintf(b, cap, "arg(%d)", ev); }
+static void an_apply(int ev) { an_stage[an_n++] = ev; if (an_n == 2) { an_n = 0; an_case(an_stage[0], an_stage[1]); } }
+static void an_root(void) { an_n = 0; M.arb.v = ARB_NONE; }
+static e1_cfg ancfg = { .nev = 1 << 16, .ev_name = an_name, .apply = an_apply, .root_setup = an_root };
+static void run_neighbours(void) {
+    static int p[2];
+    for (int bt = 0; bt < 6; bt++) for (int nb = 0; nb < 51; nb++) { p[0] = bt; p[1] = nb; e1_manual_path(&ancfg, p, 2); an_case(bt, nb); vf_outcome(vf_trace_hash() ^ (uint64_t)nb); }
+}
+
 static void run_sweep(void) {
     uint64_t evals = 0;
     for (int start = 0; start < 2; start++) {
@@ -127,10 +160,11 @@ int main(int argc, char **argv) {
     }
     e1_cfg cfg = { .nev = NEV, .ev_name = ev_name, .apply = apply, .root_setup = root_setup,
                    .model = &M, .model_size = sizeof M, .deadline_s = A.deadline };
-    int sweep = strcmp(A.mode, "sweep") == 0;
-    if (A.replay) { A.verbose = 1; return e1_replay_file(sweep ? &sweep_cfg : &cfg, A.replay); }
+    int sweep = strcmp(A.mode, "sweep") == 0, addr = strcmp(A.mode, "addr") == 0;
+    if (A.replay) { A.verbose = 1; return e1_replay_file(addr ? &ancfg : sweep ? &sweep_cfg : &cfg, A.replay); }
     double t0 = vf_now_s();
-    if (sweep) run_sweep();
+    if (addr) { run_neighbours(); R.evaluations = an_cases * 5; R.exhaustive = 1; vf_sample("3 base mapper addresses x {48 one-bit neighbours, 3 twins} x both services: Discover(X) accepted, Discover(Y) refused, Discover(X) accepted, Reset, Discover(Y) accepted"); }
+    else if (sweep) run_sweep();
     else {
         e1_stats st; e1_run(&cfg, &st);
         R.states = st.states; R.transitions = st.transitions; R.max_depth = st.max_depth; R.fixpoint = st.fixpoint;
